@@ -358,7 +358,7 @@ package schema
 //@   loop 0 invariant forall(i, 0, loopidx+1, implies(wanted(xn_schema(c), i), inmap(mandNodes, node_name(sch_child(xn_schema(c), i))) && mandNodes[node_name(sch_child(xn_schema(c), i))] == sch_child(xn_schema(c), i)))
 //@   loop 0 invariant forallstr(k, implies(inmap(mandNodes, k), exists(i, 0, loopidx+1, node_name(sch_child(xn_schema(c), i)) == k && wanted(xn_schema(c), i) && mandNodes[k] == sch_child(xn_schema(c), i))))
 //@   loop 1 invariant forallstr(k, inmap(cfgCh, k) == exists(i, 0, loopidx+1, xn_childname(c, i) == k))
-//@   loop 2 invariant keyset(cfgCh) == xn_nameset(c) && len(errs) >= 0 && (len(errs) == 0 || isfresh(errs))
+//@   loop 2 invariant keyset(cfgCh) == xn_nameset(c) && len(errs) >= 0 && isfresh(errs)
 //@   loop 2 invariant iff(len(errs) > 0, exists(i, 0, sch_nchildren(xn_schema(c)), wanted(xn_schema(c), i) && visited(node_name(sch_child(xn_schema(c), i))) && !inmap(cfgCh, node_name(sch_child(xn_schema(c), i))) && mandAbsent(sch_child(xn_schema(c), i))))
 
 // ---------------------------------------------------------------------------
@@ -379,7 +379,7 @@ package schema
 //@   ensures implies(skips(c, valType), result2 && len(result1) == 0)
 //@   ensures implies(!skips(c, valType), result2 == (len(result1) == 0))
 //@   ensures implies(!skips(c, valType), result2 == !exists(ui, 0, sch_nuniques(xn_schema(c)), clash(c, ui, xn_nchildren(c))))
-//@   loop 0 invariant len(errs) >= 0 && (len(errs) == 0 || isfresh(errs)) && iff(len(errs) > 0, exists(ui, 0, loopidx+1, clash(c, ui, xn_nchildren(c))))
+//@   loop 0 invariant len(errs) >= 0 && isfresh(errs) && iff(len(errs) > 0, exists(ui, 0, loopidx+1, clash(c, ui, xn_nchildren(c))))
 //@   loop 1 invariant forall(a, 0, loopidx+1, implies(ukey(c, a, outer(loopidx)+1) != "", len(m[ukey(c, a, outer(loopidx)+1)]) >= 1))
 //@   loop 1 invariant forall(a, 0, loopidx+1, forall(b, a+1, loopidx+1, implies(ukey(c, a, outer(loopidx)+1) != "" && ukey(c, a, outer(loopidx)+1) == ukey(c, b, outer(loopidx)+1), len(m[ukey(c, a, outer(loopidx)+1)]) >= 2)))
 //@   loop 1 invariant forallstr(k, implies(len(m[k]) >= 1, k != "" && exists(a, 0, loopidx+1, ukey(c, a, outer(loopidx)+1) == k)))
@@ -387,8 +387,8 @@ package schema
 //@   loop 1 invariant forallstr(k, iff(inmap(m, k), len(m[k]) >= 1))
 //@   loop 1 invariant len(looprange) == xn_nchildren(c) && forall(i, 0, len(looprange), looprange[i] != nil && xn_ident(looprange[i]) == xn_childident(c, i))
 //@   loop 1 invariant forallstr(k, implies(inmap(m, k), sref(m[k]) > sref(looprange)))
-//@   loop 2 invariant len(errs) >= len(outer(errs)) && (len(errs) == 0 || isfresh(errs)) && iff(len(errs) > len(outer(errs)), !forallstr(k, !(visited(k) && len(m[k]) >= 2)))
-//@   loop 3 invariant isfresh(keys) || len(keys) == 0
+//@   loop 2 invariant len(errs) >= len(outer(errs)) && isfresh(errs) && iff(len(errs) > len(outer(errs)), !forallstr(k, !(visited(k) && len(m[k]) >= 2)))
+//@   loop 3 invariant isfresh(keys)
 
 //@ func (String).Len
 //@   nopanic
